@@ -331,7 +331,7 @@ fn prog(owners: u8, ops: &[TOp]) -> ThrProg {
 /// Fixed base programs whose complete schedule space (at the pause points) is enumerated.
 pub fn directed_programs(prop: Prop) -> Vec<(&'static str, ThrCase)> {
     use TOp::*;
-    let c = |threads: Vec<ThrProg>, main_owner: bool| ThrCase { threads, main_owner, schedule: Some(vec![]), recorded: None };
+    let c = |threads: Vec<ThrProg>, main_owner: bool| ThrCase { threads, main_owner, schedule: Some(vec![]), late_subs: false, recorded: None };
     match prop {
         Prop::C03 => vec![
             ("drop||drop", c(vec![prog(1, &[DropOwner]), prog(1, &[DropOwner])], false)),
@@ -407,8 +407,10 @@ fn thr_phases(ctx: &mut Ctx) {
     ctx.random("directed-generated-programs", "thr", &|| engine_thr::case(true, 3, 3), &run, n);
     ctx.threads = saved.min(8);
     // free-running rounds
-    let n = ctx.pick(6_000, 400_000);
-    ctx.random("free-running", "thr", &|| engine_thr::case(false, 4, 6), &run, n);
+    // free-running: every generated program is executed 40 times on one set of worker threads
+    let run_free = move |c: &ThrCase| engine_thr::run_reps(c, prop, 40);
+    let n = ctx.pick(4_000, 200_000);
+    ctx.random("free-running", "thr", &|| engine_thr::case(false, 4, 6), &run_free, n);
     ctx.threads = saved;
 }
 
